@@ -240,13 +240,27 @@ func VfC16_resolved() {
 	// one top-level ADD (acknowledged), then its DELETE
 	add := g.top("op", vfTopAll[vfInt("op.kind", 0, 2)])
 	vfAssume(vfSubmit(r, ref, add) == vfStAcked)
-	n1 := <-notes
+	del := &vfOpD{id: g.id(), typ: vfDELETE, kind: add.kind, ni: add.ni, pfx: add.pfx, label: add.label, hasBody: true}
+	var n1, n2 vfResolvedNote
+	if vfBool("back-to-back") {
+		// the DELETE follows at once: the consumer has not run yet - each snapshot must still show the state
+		// at the moment of ITS change, not the state when the consumer gets to run
+		vfAssume(vfSubmit(r, ref, del) == vfStAcked)
+		a, b := <-notes, <-notes
+		if a.op == constants.Add {
+			n1, n2 = a, b
+		} else {
+			n1, n2 = b, a
+		}
+		vfReach("back-to-back")
+	} else {
+		n1 = <-notes
+		vfAssume(vfSubmit(r, ref, del) == vfStAcked)
+		n2 = <-notes
+	}
 	vfAssert(n1.op == constants.Add && n1.ni == add.ni, "C16:resolved-hook-announces-add")
 	vfAssert(vfSnapshotHas(n1), "C16:snapshot-contains-added-entry")
 	vfAssert(n1.ribs[add.ni] != r.niRIB[add.ni].r, "C16:snapshot-is-private")
-	del := &vfOpD{id: g.id(), typ: vfDELETE, kind: add.kind, ni: add.ni, pfx: add.pfx, label: add.label, hasBody: true}
-	vfAssume(vfSubmit(r, ref, del) == vfStAcked)
-	n2 := <-notes
 	vfAssert(n2.op == constants.Delete && n2.ni == add.ni, "C16:resolved-hook-announces-delete")
 	vfAssert(!vfSnapshotHas(n2), "C16:snapshot-lacks-deleted-entry")
 	// the first snapshot is unaffected by the later DELETE
